@@ -257,10 +257,15 @@ def default_lang_twice(form) -> bool:
 
 
 def ref_to_root(form) -> bool:
-    """a ${reference} to the survey root itself (`data`, or the settings `name`)"""
+    """a ${reference} to an element whose xpath is just `/<root>`: the survey root itself (`data`, or the
+    settings `name`), or — with the `flat` setting / a `flat` cell — a group or repeat"""
     root = str(settings_of(form).get("name", "data"))
-    pat = "${" + root + "}"
-    return any(pat in str(v) for sheet in ("survey", "choices", "entities", "settings") for r in form.get(sheet) or [] for v in r.values())
+    names = [root]
+    if settings_of(form).get("flat") or any("flat" in r for r in form.get("survey") or []):
+        names += [str(r.get("name")) for r in form.get("survey") or [] if t_begin(ctype(r)) and r.get("name")]
+    pats = ["${" + n + "}" for n in names] + ["${last-saved#" + n + "}" for n in names]
+    return any(p in str(v) for sheet in ("survey", "choices", "entities", "settings") for r in form.get(sheet) or []
+               for v in r.values() for p in pats)
 
 
 def shape(form) -> dict:
@@ -408,6 +413,9 @@ def directed_cases():
     add("F43-reference-to-root", {"survey": S({"type": "text", "name": "q", "label": "Q", "relevant": "${data} != ''"})})
     add("F43-reference-to-root", {"survey": S({"type": "begin group", "name": "g", "label": "G"},
                                               {"type": "text", "name": "q", "label": "Q ${data}"}, {"type": "end group"})})
+    add("F43-reference-to-root", {"survey": S({"type": "begin group", "name": "g", "label": "G"},
+                                              {"type": "text", "name": "q", "label": "Q", "relevant": "${g} = 1"}, {"type": "end group"}),
+                                  "settings": [{"flat": "yes"}]})
     add("F34-survey-internal-column", {"survey": S({"type": "text", "name": "a", "label": "A", "children": "0"}), "settings": [{"flat": "yes"}]})
     add("F34-survey-internal-column", {"survey": S({"type": "text", "name": "a", "label": "A", "children::x": "0"})})
     add("F41-blank-cell-before-grouped-column", {"survey": S({"type": "text", "name": "a", "parameters": " ", "label::en": "A"})})
@@ -532,7 +540,7 @@ def explore(ctx, factor, bs):
             check_no_internal(ctx, case, r)
             ctx.record(case, True)
     # ---- A: catalogue
-    n_forms = ctx.pick(14, 170) * factor
+    n_forms = ctx.pick(14, 110) * factor
     site_cap = ctx.pick(40, 120)
     applicable = {m[0]: 0 for m in c17_mut.CATALOGUE}
     done = 0
@@ -560,7 +568,7 @@ def explore(ctx, factor, bs):
     ctx.notes["catalogue_applications"] = applicable
     ctx.notes["catalogue_base_forms"] = done
     # ---- B: vocabulary fuzz
-    n_fuzz = ctx.pick(7000, 160000) * factor
+    n_fuzz = ctx.pick(7000, 120000) * factor
     for i in range(n_fuzz):
         k = i % 10
         if k < 5:
